@@ -66,6 +66,16 @@ pub const SPECIAL: &[&str] = &[
     "OUT",
     "OUT_en?",
     "OUTA?",
+    // mnemonics whose short form no header can spell (all lower case, digit or '_' after the
+    // lower-case part, lower-case common commands)
+    "start",
+    "stop",
+    "ch1",
+    "dev1",
+    "TRIGger:start?",
+    "TRIGger:stop?",
+    "*idn?",
+    "*opc?",
     // longer than the 12 characters SCPI recommends for a mnemonic
     "TemperatureCompensation:A",
     "CALibration:TemperatureCompensation?",
@@ -75,10 +85,20 @@ pub const STD_VERSION: &str = "SYSTem:VERSion?";
 pub const STD_NEXT: &str = "SYSTem:ERRor:[NEXT]?";
 pub const STD_COUNT: &str = "SYSTem:ERRor:COUNt?";
 
+/// Can a program header contain this mnemonic?  A program mnemonic starts with
+/// a letter (a common command with '*' followed by a letter) and continues
+/// with letters, digits and underscores.
+fn spellable(m: &str) -> bool {
+    let b = m.as_bytes();
+    let body = if b.first() == Some(&b'*') { &b[1..] } else { b };
+    !body.is_empty() && body[0].is_ascii_alphabetic() && body.iter().all(|c| c.is_ascii_alphanumeric() || *c == b'_')
+}
+
 /// A spelled path is reachable by a program header iff it is non-empty and
-/// every mnemonic is non-empty.
+/// every mnemonic can be written in a header (the short form of an all-lower-case
+/// mnemonic is empty, that of `ch1` is `1`, that of `*idn` is `*`: no header spells them).
 fn reachable(p: &[String]) -> bool {
-    !p.is_empty() && p.iter().all(|m| !m.is_empty())
+    !p.is_empty() && p.iter().all(|m| spellable(m))
 }
 
 pub fn reachable_paths(d: &Decl) -> BTreeSet<Vec<String>> {
@@ -122,12 +142,12 @@ fn set_facts(texts: &[&str], decls: &[Decl]) -> Vec<(&'static str, String)> {
         n_raw != header::spelled_paths(d).len()
     });
     let all_optional = decls.iter().any(|d| d.parts.iter().all(|p| p.optional));
-    let empty_short = decls.iter().any(|d| d.parts.iter().any(|p| p.short.is_empty()));
+    let empty_short = decls.iter().any(|d| d.parts.iter().any(|p| !spellable(&p.short)));
     vec![
         ("set_size", texts.len().to_string()),
         ("a_declaration_repeats_its_own_path", self_repeat.to_string()),
         ("a_declaration_is_all_optional", all_optional.to_string()),
-        ("a_mnemonic_has_an_empty_short_form", empty_short.to_string()),
+        ("a_short_form_cannot_be_spelled_in_a_header", empty_short.to_string()),
     ]
 }
 
@@ -323,12 +343,80 @@ impl Default for CompiledStats {
     }
 }
 
+/// Executes one header on a fresh instance of the interface and compares with
+/// the specification (used by the sweep and by the replay of a recorded case).
+#[allow(clippy::too_many_arguments)]
+pub fn header_case(e: &Entry, decls: &[Decl], mn: &[&str], abs: bool, query: bool, buf: &mut Vec<u8>, st: &mut CompiledStats, g: &mut Groups) {
+    let user = e.decls.len();
+    let texts: Vec<&str> = e.decls.to_vec();
+    buf.clear();
+    if abs {
+        buf.push(b':');
+    }
+    buf.extend_from_slice(mn.join(":").as_bytes());
+    if query {
+        buf.push(b'?');
+    }
+    buf.push(b'\n');
+    st.headers += 1;
+    let sel = header::select(decls, mn, query);
+    (e.exec)(buf);
+    let (calls, errs, outb) = log::with(|l| {
+        (
+            l.ev.iter().filter(|x| x.k == K::Enter).map(|x| l.data(x).to_vec()).collect::<Vec<_>>(),
+            l.ev.iter().filter(|x| x.k == K::Err).map(|x| l.data(x).to_vec()).collect::<Vec<_>>(),
+            l.concat(K::WBytes),
+        )
+    });
+    let ok = match sel.len() {
+        1 => {
+            st.selected += 1;
+            let i = sel[0];
+            if i < user {
+                calls.len() == 1 && calls[0] == i.to_string().as_bytes() && errs.is_empty()
+            } else {
+                calls.is_empty() && errs.is_empty() && Some(&outb[..]) == e.std_output(i)
+            }
+        }
+        0 => {
+            st.undefined += 1;
+            calls.is_empty() && errs.len() == 1 && errs[0] == b"-113" && outb.is_empty()
+        }
+        _ => true, // ambiguous by specification: not a C01 case
+    };
+    st.distinct.add(if sel.len() == 1 { sel[0] as u64 } else { u64::MAX });
+    if !ok {
+        let kind = match sel.len() {
+            1 if calls.is_empty() => "declared-spelling-not-accepted",
+            1 => "declared-spelling-selects-another-handler-or-reports",
+            _ if !calls.is_empty() => "undeclared-spelling-invokes-a-handler",
+            _ => "undeclared-spelling-not-reported-as-one-113",
+        };
+        let f = vec![("property", "C01".to_string()), ("kind", kind.to_string()), ("std_cmds", e.std_cmds.to_string()), ("err_cmds", e.err_cmds.to_string())];
+        let b2 = buf.clone();
+        g.add("compiled-headers", &f, (texts.len() * 1000 + b2.len(), &b2), || {
+            (
+                json!({"interface": e.name, "decls": texts, "header": crate::util::hex(&b2)}),
+                format!(
+                    "interface {} {:?}: header \"{}\" selects declaration(s) {:?} by specification; observed calls {:?} errors {:?} output \"{}\"",
+                    e.name,
+                    texts,
+                    show(&b2),
+                    sel,
+                    calls.iter().map(|c| show(c)).collect::<Vec<_>>(),
+                    errs.iter().map(|c| show(c)).collect::<Vec<_>>(),
+                    show(&outb)
+                ),
+            )
+        });
+    }
+}
+
 /// Checks one compiled interface: emitted trie vs specification, and every
 /// header over the near-miss pool end to end through `run`.
 pub fn check_compiled(e: &Entry, max_levels: usize, full_budget: u64, g: &mut Groups, st: &mut CompiledStats) {
     st.interfaces += 1;
     let decls = e.all_decls();
-    let user = e.decls.len();
     let texts: Vec<&str> = e.decls.to_vec();
     let name_b = e.name.as_bytes();
     // (a) emitted statics
@@ -365,67 +453,7 @@ pub fn check_compiled(e: &Entry, max_levels: usize, full_budget: u64, g: &mut Gr
                 continue;
             }
             for query in [false, true] {
-                buf.clear();
-                if abs {
-                    buf.push(b':');
-                }
-                buf.extend_from_slice(mn.join(":").as_bytes());
-                if query {
-                    buf.push(b'?');
-                }
-                buf.push(b'\n');
-                st.headers += 1;
-                let sel = header::select(&decls, mn, query);
-                (e.exec)(&buf);
-                let (calls, errs, outb) = log::with(|l| {
-                    (
-                        l.ev.iter().filter(|x| x.k == K::Enter).map(|x| l.data(x).to_vec()).collect::<Vec<_>>(),
-                        l.ev.iter().filter(|x| x.k == K::Err).map(|x| l.data(x).to_vec()).collect::<Vec<_>>(),
-                        l.concat(K::WBytes),
-                    )
-                });
-                let ok = match sel.len() {
-                    1 => {
-                        st.selected += 1;
-                        let i = sel[0];
-                        if i < user {
-                            calls.len() == 1 && calls[0] == i.to_string().as_bytes() && errs.is_empty()
-                        } else {
-                            calls.is_empty() && errs.is_empty() && Some(&outb[..]) == e.std_output(i)
-                        }
-                    }
-                    0 => {
-                        st.undefined += 1;
-                        calls.is_empty() && errs.len() == 1 && errs[0] == b"-113" && outb.is_empty()
-                    }
-                    _ => true, // ambiguous by specification: not a C01 case
-                };
-                st.distinct.add(if sel.len() == 1 { sel[0] as u64 } else { u64::MAX });
-                if !ok {
-                    let kind = match sel.len() {
-                        1 if calls.is_empty() => "declared-spelling-not-accepted",
-                        1 => "declared-spelling-selects-another-handler-or-reports",
-                        _ if !calls.is_empty() => "undeclared-spelling-invokes-a-handler",
-                        _ => "undeclared-spelling-not-reported-as-one-113",
-                    };
-                    let f = vec![("property", "C01".to_string()), ("kind", kind.to_string()), ("std_cmds", e.std_cmds.to_string()), ("err_cmds", e.err_cmds.to_string())];
-                    let b2 = buf.clone();
-                    g.add("compiled-headers", &f, (texts.len() * 1000 + b2.len(), &b2), || {
-                        (
-                            json!({"interface": e.name, "decls": texts, "header": crate::util::hex(&b2)}),
-                            format!(
-                                "interface {} {:?}: header \"{}\" selects declaration(s) {:?} by specification; observed calls {:?} errors {:?} output \"{}\"",
-                                e.name,
-                                texts,
-                                show(&b2),
-                                sel,
-                                calls.iter().map(|c| show(c)).collect::<Vec<_>>(),
-                                errs.iter().map(|c| show(c)).collect::<Vec<_>>(),
-                                show(&outb)
-                            ),
-                        )
-                    });
-                }
+                header_case(e, &decls, mn, abs, query, &mut buf, st, g);
             }
         }
     };
